@@ -154,7 +154,8 @@ Inductive op :=
 | OUpdate (t : option Q) (h g d : option bool)         (* update_softmax_options(temperature, hard, gumbel, disable_sampling) *)
 | OTrain | OEval
 | OForward (noise : nat)
-| OTrainSwitch (which : nat) (b : bool).     (* trainability switches of dnas.py / pit.py / supernet.py: write requires_grad only *)
+| OTrainSwitch (which : nat) (b : bool)      (* trainability switches of dnas.py / pit.py / supernet.py: write requires_grad only *)
+| OObserve (which : nat).                    (* export() / export(add_bn=False) / summary() / get_cost / str(): observers, _preserve_state *)
 
 Fixpoint zip_with {A B C} (f : A -> B -> C) (keep : A -> C) (a : list A) (b : list B) : list C :=
   match a, b with
@@ -239,6 +240,7 @@ Definition step (s : state) (o : op) : state :=
   | OTrainSwitch w b =>
       with_tr s {| training := training t; disc := disc t; hard := hard t; gum := gum t; nos := nos t; sn_temp := sn_temp t;
                    sn_thetas := sn_thetas t; ranges := ranges t; rg := rg t ++ [(w, b)] |}
+  | OObserve _ => s
   end.
 Definition run (s : state) (ops : list op) : state := fold_left step ops s.
 
